@@ -187,4 +187,59 @@ class C06b(Obligation):
             ctx.check(out.raised(RefactoringError), 'refused with RefactoringError (and nothing else)')
 
 
-OBLIGATIONS = [C06a, C06b]
+from jedi.api.refactoring import extract as X  # noqa: E402
+
+
+class Leaf:
+    type = 'name'
+
+    def __init__(self, value, is_def):
+        self.value = value
+        self._is_def = is_def
+
+    def is_definition(self):
+        return self._is_def
+
+
+class C06d(Obligation):
+    id = 'C06.d'
+    title = 'extract_function returns exactly the variables of the selection that are read after it'
+    pattern = 'P3 (statements after the selection are stubs with symbolic positions / tokens)'
+    assumptions = (
+        'straight-line code after the selection: S<=3 statements with symbolic start lines, each holding 1-2 name '
+        'tokens whose spelling is drawn from {v0, v1, other} and whose definition/reference role is symbolic',
+    )
+
+    def configs(self, tier):
+        return [dict(S=1, T=2), dict(S=2, T=1)] if tier == 'quick' else [dict(S=1, T=2), dict(S=2, T=2), dict(S=3, T=1)]
+
+    def scenario(self, ctx, cfg):
+        S = cfg['S']
+        at_line = ctx.int('selection_end_line', 1)
+        stmts = []
+        info = []
+        for i in range(S):
+            line = ctx.int('stmt%d_line' % i, 1)
+            toks = []
+            for j in range(cfg['T']):
+                value = ctx.oneof('stmt%d_tok%d' % (i, j), ('v0', 'v1', 'other'))
+                is_def = ctx.flag('stmt%d_tok%d_is_definition' % (i, j))
+                toks.append(Leaf(value, is_def))
+            stmts.append(Obj(type='expr_stmt', start_pos=(line, 0), children=toks))
+            info.append((line, toks))
+        for i in range(1, S):
+            ctx.assume(info[i - 1][0] < info[i][0])
+        search_node = Obj(children=stmts)
+        out = ctx.call(lambda: list(X._find_needed_output_variables(None, search_node, (at_line, 0), ['v0', 'v1'])))
+        ctx.check(out.exc is None, 'never raises')
+        if out.exc is not None:
+            return
+        got = out.value
+        ctx.check(len(got) == len(set(got)), 'each variable is returned at most once')
+        for v in ('v0', 'v1'):
+            read_after = ctx.Or(*[ctx.And(line >= at_line, t.value == v, not t._is_def)
+                                  for line, toks in info for t in toks])
+            ctx.check(ctx.iff(v in got, read_after), 'a variable is returned iff it is read after the selection')
+
+
+OBLIGATIONS = [C06a, C06b, C06d]
